@@ -178,3 +178,10 @@ Fixpoint q_run (q : squeue) (merged : cmap) (lost : list cmap) (ops : list qop)
 
 Definition pushed_snaps (ops : list qop) : list cmap :=
   flat_map (fun o => match o with QPush (e :: r) => [e :: r] | _ => [] end) ops.
+
+(* ArrayQueue::pop: the oldest snapshot, if any *)
+Definition sq_pop (q : squeue) : option cmap * squeue :=
+  match sq_items q with
+  | [] => (None, q)
+  | x :: r => (Some x, mksq (sq_cap q) r)
+  end.
